@@ -86,28 +86,54 @@ def main():
     ap.add_argument('--repo', default='/repo')
     a = ap.parse_args()
     seed = int(os.environ.get('VERIF_SEED', '0') or 0)
-    rep = Report(a.pid, a.tier, seed)
     reg = registry()
     if a.pid not in reg:
         print('no check for', a.pid)
         return 2
-    try:
-        prog = Program(a.facts)
-        ctx = Ctx(prog, a.tier, a.facts, {'facts_default': a.facts_default, 'fixtures': a.fixtures, 'repo': a.repo})
-        expl = reg[a.pid](ctx, rep)
-        npr = pruned_edges(ctx)
-        rep.extra['pruned_infeasible_edges'] = npr
-        rep.rule('engine.P0', 'the CFG pre-pass that removes impossible edges (`Err(..)?` with a literal Err, exhaustive discriminant switches) recognised its idioms: a drift in rustc naming would otherwise surface as spurious paths')
-        rep.count_floor('engine.P0', 'infeasible edges pruned in the workspace crates', npr, 300)
-        if a.tier == 'thorough':
-            thorough(a, reg, rep)
-    except AnchorMissing as e:
-        rep.fail_closed(a.pid + '.anchor', str(e))
-        expl = 'anchor missing: ' + str(e)
-    except Exception as e:  # internal error: fail closed, never pass silently
-        traceback.print_exc()
-        rep.fail_closed(a.pid + '.internal', 'internal error %s: %s' % (type(e).__name__, e))
-        expl = 'internal error'
+
+    def run_once(level):
+        rep = Report(a.pid, a.tier, seed)
+        expl = ''
+        try:
+            prog = Program(a.facts, level=level)
+            ctx = Ctx(prog, a.tier, a.facts, {'facts_default': a.facts_default, 'fixtures': a.fixtures, 'repo': a.repo})
+            expl = reg[a.pid](ctx, rep)
+            npr = pruned_edges(ctx)
+            rep.extra['pruned_infeasible_edges'] = npr
+            rep.rule('engine.P0', 'the CFG pre-pass that removes impossible edges (`Err(..)?` with a literal Err, exhaustive discriminant switches) recognised its idioms: a drift in rustc naming would otherwise surface as spurious paths')
+            rep.count_floor('engine.P0', 'infeasible edges pruned in the workspace crates', npr, 300)
+            rep.extra['normal_form'] = {
+                'level': level,
+                'helpers_inlined': list(prog.inlined_helpers), 'helpers_absorbed': sorted(prog.absorbed),
+                'renamed_private_functions': {k: list(v) for k, v in prog.renamed.items()},
+                'results_threaded': dict(getattr(prog, 'threaded', {})), 'side_selections_split': dict(getattr(prog, 'split', {})),
+                'combinators_expanded': dict(getattr(prog, 'expanded', {})),
+            }
+            if a.tier == 'thorough' and level == 1:
+                thorough(a, reg, rep)
+        except AnchorMissing as e:
+            rep.fail_closed(a.pid + '.anchor', str(e))
+            expl = 'anchor missing: ' + str(e)
+        except Exception as e:  # internal error: fail closed, never pass silently
+            traceback.print_exc()
+            rep.fail_closed(a.pid + '.internal', 'internal error %s: %s' % (type(e).__name__, e))
+            expl = 'internal error'
+        return rep, expl
+
+    rep, expl = run_once(int(os.environ.get('VERIF_LEVEL', '1')))
+    if rep.new_violations() and not os.environ.get('VERIF_NO_N2'):
+        # second normal form of the SAME program (Option/Result combinators expanded into matches, closures spliced in).
+        # Both forms are behaviourally the program under analysis; a rule is a necessary condition of the property on
+        # the program, so it must hold on every normal form: the check passes when it passes on one of them.
+        rep2, expl2 = run_once(2)
+        if not rep2.new_violations():
+            rep2.extra['normal_form']['first_form_failed'] = [o['key'] for o in rep.new_violations()][:20]
+            rep2.t0 = rep.t0
+            if a.tier == 'thorough':
+                for k in ('default_feature_config', 'mutant_selftest'):
+                    if k in rep.extra:
+                        rep2.extra[k] = rep.extra[k]
+            rep, expl = rep2, expl2
     return rep.finish('other', expl or '')
 
 
